@@ -108,8 +108,6 @@ def check_raster(kind, data, matrix, kw):
                 out.append(('png-phys', dict(what, phys=img['phys'], expected=want)))
         elif img['phys'] is not None:
             out.append(('png-phys', dict(what, phys=img['phys'], expected=None)))
-        if not set(img['filters']) <= {0, 2}:
-            out.append(('png-filter', dict(what, filters=img['filters'])))
     if kind == 'xbm' and img.get('name') != kw.get('name', 'img'):
         out.append(('name', dict(what, name=img.get('name'))))
     if kind == 'xpm' and img.get('name') != kw.get('name', 'img'):
